@@ -28,9 +28,42 @@ def build_time_course(hist):
 
     ems = []
     for fr in hist["frames"]:
-        ems.append(droplets.Emulsion(
-            [droplets.SphericalDroplet(np.asarray(r[:-1], float), float(r[-1])) for r in fr]))
+        ems.append(droplets.Emulsion([mk_member(hist, r) for r in fr]))
     return droplets.EmulsionTimeCourse(ems, times=list(hist["times"]))
+
+
+MEMBER_CLASSES = {1: ["SphericalDroplet", "DiffuseDroplet"],
+                  2: ["SphericalDroplet", "DiffuseDroplet", "PerturbedDroplet2D"],
+                  3: ["SphericalDroplet", "DiffuseDroplet", "PerturbedDroplet3D"]}
+
+
+def mk_member(hist, r):
+    """Droplet of the history's member class (default spherical); width and amplitudes are a
+    deterministic function of the row so that the same row always gives the same bytes."""
+    from droplets import droplets as dmod
+
+    cls = hist.get("cls") or "SphericalDroplet"
+    pos, R = np.asarray(r[:-1], float), float(r[-1])
+    if cls == "SphericalDroplet":
+        return dmod.SphericalDroplet(pos, R)
+    width = hist.get("width")
+    if cls == "DiffuseDroplet":
+        return dmod.DiffuseDroplet(pos, R, width)
+    n = int(hist.get("modes", 2))
+    amps = [0.05 * math.sin(7.0 * R + k) for k in range(n)]
+    return getattr(dmod, cls)(pos, R, width, amps)
+
+
+def rand_member_class(rng, hist):
+    """Give a history a random member class (half of them stay spherical)."""
+    if rng.random() < 0.5:
+        return hist
+    hist["cls"] = str(rng.choice(MEMBER_CLASSES[hist["dim"]]))
+    if hist["cls"] != "SphericalDroplet":
+        hist["width"] = [None, 0.0, 0.37][int(rng.integers(3))]
+    if hist["cls"].startswith("Perturbed"):
+        hist["modes"] = int(rng.integers(1, 4))
+    return hist
 
 
 def snapshot(etc):
@@ -98,7 +131,7 @@ def index_tracks(hist, tracks, rec):
     lookup = {}
     for i, (t, fr) in enumerate(zip(hist["times"], hist["frames"])):
         for j, r in enumerate(fr):
-            d = _mk(r)
+            d = mk_member(hist, r)
             lookup.setdefault((_tkey(t), common.droplet_bytes(d)), []).append((i, j))
     out = []
     unknown = []
@@ -276,7 +309,7 @@ def _crosses(hist, i, pairs) -> bool:
 
 def _label(hist):
     fr = [[[round(float(x), 4) for x in r] for r in f] for f in hist["frames"]]
-    return (f"method={hist['method']} max_dist={hist.get('max_dist')} grid="
+    return (f"method={hist['method']} max_dist={hist.get('max_dist')} members={hist.get('cls', 'SphericalDroplet')} grid="
             f"{geom.grid_label(hist['grid']) if hist.get('grid') else None} times={hist['times']} frames={fr}")[:900]
 
 
@@ -382,7 +415,7 @@ def random_history(rng, *, overlapping=False):
     if method == "distance":
         cut = [None, None, float(rng.uniform(0.1, 3.0)), float("inf"), -1.0][int(rng.integers(5))]
     hist = {"dim": dim, "grid": grid, "times": times, "frames": frames, "method": method, "max_dist": cut}
-    return hist
+    return rand_member_class(rng, hist)
 
 
 def adversarial_history(rng):
@@ -411,5 +444,5 @@ def adversarial_history(rng):
         frames.append(fr)
     method = "overlap" if rng.random() < 0.5 else "distance"
     cut = None if method == "overlap" else [None, float(sep * 0.49), float("inf")][int(rng.integers(3))]
-    return {"dim": dim, "grid": grid, "times": [float(t) for t in range(T)], "frames": frames,
-            "method": method, "max_dist": cut}
+    return rand_member_class(rng, {"dim": dim, "grid": grid, "times": [float(t) for t in range(T)], "frames": frames,
+                                   "method": method, "max_dist": cut})
